@@ -10,5 +10,6 @@ JSpec == JInit /\ [][UNCHANGED k]_k
 Verdict == LET c == Data[k] IN
   IF c.ver = 16 THEN PrintT(ToJson([k |-> k, v |-> JudgeOptions(c.L, c.R, c.o, c.sup, c.nin, c.nout, c.tn)])) ELSE
   PrintT(ToJson([k |-> k, v |-> IF c.ver = 1 THEN JudgeTurn(c.L, c.nin, c.nout, c.inOn, c.outOn, c.tn)
+                                ELSE IF c.ver = 22 THEN JudgeTurn2Sync(c.L, c.blocked)
                                 ELSE JudgeTurn2(c.L, c.nin, c.nout, c.tn)]))
 ==============================================================================
